@@ -1,4 +1,5 @@
 """C07 - addons cannot duplicate, lose or wedge traffic: at-most-once, fault-isolated."""
+import asyncio
 import itertools
 from collections import Counter
 
@@ -178,13 +179,13 @@ RAISES = {"raise_exc": Exception, "raise_key": KeyError, "raise_rt": RuntimeErro
 B_PACKET = ["none", "zero", "true", "obj", "raise_exc", "raise_key"]
 B_LLUDP = ["none", "zero", "empty", "false", "true", "one", "obj", "raise_exc", "raise_key", "raise_rt", "raise_val",
            "take_keep", "take_send", "take_send_twice", "take_then_send_orig", "drop", "drop_twice", "drop_then_send",
-           "send_orig", "send_orig_twice", "send_orig_true", "send_new", "mutate"]
+           "send_orig", "send_orig_twice", "send_orig_true", "send_new", "mutate", "touch"]
 B_RLV = ["none", "true", "raise_exc", "false"]
 B_SUB = ["absent", "noop", "raise", "pred_raise", "pred_false", "take_waitfor", "take_async", "observe_async", "unsub_self",
-         "take_waitfor_pred_raise", "take_async_pred_raise"]
+         "take_waitfor_pred_raise", "take_async_pred_raise", "waitfor_abandoned"]
 HOOKS = (("packet", B_PACKET), ("lludp", B_LLUDP), ("rlv", B_RLV), ("session_sub", B_SUB), ("region_sub", B_SUB))
 DEFAULT = {"packet": "none", "lludp": "none", "rlv": "none", "session_sub": "absent", "region_sub": "absent"}
-MSG_KINDS = ["v2s_rel", "s2v_unrel", "v2s_cmd", "s2v_rlv1", "s2v_rlv3", "s2v_rel_acks", "s2v_rlv0", "v2s_cmd_bad", "v2s_cmd_ok"]
+MSG_KINDS = ["v2s_rel", "s2v_unrel", "v2s_cmd", "s2v_rlv1", "s2v_rlv3", "s2v_rel_acks", "s2v_rlv0", "v2s_cmd_bad", "v2s_cmd_ok", "v2s_truncated"]
 
 
 class _Custom(Exception):
@@ -293,6 +294,10 @@ class Addon:
         if b == "send_new":
             new = Message("ChatFromSimulator", Block("ChatData", fill_missing=True), direction=Direction.IN)
             c.send(new)
+            return None
+        if b == "touch":
+            # only reads the message (and fails if its body cannot be parsed); reading must not change what is forwarded
+            _ = message.blocks
             return None
         if b == "mutate":
             if "ChatData" in message:
@@ -407,6 +412,19 @@ def run_program(program):
                         cm = handler.subscribe_async(names, predicate=bad_pred, take=True)
                         cm.__enter__()
                         cms.append(cm)
+                elif b == "waitfor_abandoned":
+                    # a claimant with a time limit gives up early (its task is cancelled); once its time limit has passed it is gone
+                    # for good and later messages are nobody's but the wire's
+                    n0 = sum(len(handler.register(n_)) for n_ in names)
+
+                    async def _abandon(handler=handler):
+                        f = handler.wait_for(names, timeout=0.01, take=True)
+                        f.cancel()
+                    ensure_loop().run_until_complete(_abandon())
+                    for _ in range(60):
+                        ensure_loop().run_until_complete(asyncio.sleep(0.01))
+                        if sum(len(handler.register(n_)) for n_ in names) <= n0:
+                            break
                 elif b == "take_waitfor":
                     keep.append(handler.wait_for(names, take=True))
                 elif b in ("take_async", "observe_async"):
@@ -432,6 +450,15 @@ def run_program(program):
                 pid_out += 1
                 case = _chat_v2s(pid_out, 524, True, "repeat lots" if kind == "v2s_cmd_bad" else "repeat 3", world)
                 direction, pid, reliable = "out", pid_out, True
+            elif kind == "v2s_truncated":
+                # a chat datagram cut short inside its body: the header is fine, the body cannot be parsed by whoever looks
+                pid_out += 1
+                s_ = world.viewers[0]["session"]
+                # (a message type the proxy itself has no reason to look into)
+                case = {"name": "ScriptDialogReply", "flags": 0x40, "pid": pid_out, "acks": [], "extra": b"", "fill": False,
+                        "blocks": [["AgentData", [{"AgentID": s_.agent_id.hex, "SessionID": s_.id.hex}]],
+                                   ["Data", [{"ObjectID": "%032x" % 5, "ChatChannel": 7, "ButtonIndex": 1, "ButtonLabel": "label %d" % k}]]]}
+                direction, pid, reliable = "out", pid_out, True
             elif kind == "s2v_unrel":
                 pid_in += 1
                 case = _chat_s2v(pid_in, False, "m%d" % k, 1)
@@ -454,6 +481,8 @@ def run_program(program):
                 raise ValueError(kind)
             n_rlv = {"s2v_rlv1": 1, "s2v_rlv3": 3}.get(kind, 0)
             dg = ref_datagram(case)
+            if kind == "v2s_truncated":
+                dg = dg[:-4]
             em_before = len(rec.emitted)
             log_before = len(rec.log)
             if direction == "out":
@@ -487,7 +516,8 @@ def run_program(program):
                 out.append(("harness:no-message", "message %d (%s) never reached the session handler (exc %r)" % (k, kind, exc)))
                 continue
             # subscribers: every live subscription must have run exactly once, whatever the others did
-            for a in addons:
+            named = kind != "v2s_truncated"        # the addons' subscriptions are on the chat message names only
+            for a in (addons if named else ()):
                 for level in ("session_sub", "region_sub"):
                     b = a.prog[level]
                     if b in ("noop", "raise") or (b == "unsub_self" and k == 0):
@@ -496,7 +526,7 @@ def run_program(program):
                             out.append(("isolation:subscriber-skipped:%s" % level, "message %d: %s of addon %d ran %d times (subscriptions: %r)" % (
                                 k, level, a.idx, n, [(x.prog["session_sub"], x.prog["region_sub"]) for x in addons])))
             takes_by_subs = 0
-            for a in addons:
+            for a in (addons if named else ()):
                 for level in ("session_sub", "region_sub"):
                     b = a.prog[level]
                     if b == "take_async":
@@ -544,6 +574,12 @@ def run_program(program):
                     k, kind, n_orig, exc, [a.prog["lludp"] for a in addons], [(a.prog["session_sub"], a.prog["region_sub"]) for a in addons])))
             if claimed:
                 rec_claimed = True
+            if kind == "v2s_truncated" and not claimed and n_orig == 1 and not any(a.prog["lludp"] == "mutate" for a in addons):
+                datas = [d for (_a, d, dst) in sent if dst == raddr]
+                # (the sequence number in bytes 1-4 is legitimately renumbered around the proxy's own packets)
+                if datas and (bytes(datas[-1])[:1] + bytes(datas[-1])[5:]) != (dg[:1] + dg[5:]):
+                    out.append(("forwarded-bytes-differ:unparseable", "message %d: an unparseable datagram that addons only looked at was forwarded as "
+                                "%d bytes instead of the %d that arrived" % (k, len(datas[-1]), len(dg))))
             # right peer for the original
             if n_orig == 1 and len([1 for (a_, d_, dst) in sent]) >= 1:
                 want = raddr if direction == "out" else world.viewers[0]["addr"]
@@ -607,7 +643,7 @@ def program_from(placements, kinds):
 
 
 STREAMS = [["v2s_rel", "s2v_unrel", "v2s_rel"], ["s2v_rlv1", "v2s_rel", "s2v_rlv3"], ["v2s_cmd", "s2v_rel_acks", "v2s_rel"],
-           ["s2v_rel_acks", "s2v_rlv3", "s2v_unrel"], ["s2v_rlv0", "v2s_rel", "s2v_rlv0"], ["v2s_cmd_bad", "v2s_rel", "v2s_cmd_ok"]]
+           ["s2v_rel_acks", "s2v_rlv3", "s2v_unrel"], ["s2v_rlv0", "v2s_rel", "s2v_rlv0"], ["v2s_cmd_bad", "v2s_rel", "v2s_cmd_ok"], ["v2s_truncated", "v2s_rel", "v2s_truncated"]]
 
 
 def shards(tier):
@@ -620,7 +656,7 @@ def shards(tier):
     for i in range(16):
         sh.append({"kind": "single", "lo": i, "step": 16})
     for i in range(48):
-        sh.append({"kind": "pairs", "lo": i, "step": 48, "streams": 6 if th else 2})
+        sh.append({"kind": "pairs", "lo": i, "step": 48, "streams": 7 if th else 2})
     for i in range(8):
         sh.append({"kind": "random", "n": 4000 if th else 100})
     return sh
@@ -657,7 +693,7 @@ def run_shard(ctx, shard):
         cls = Counter()
         sample = None
         for placements in work:
-            for stream in STREAMS[:shard.get("streams", 6)]:
+            for stream in STREAMS[:shard.get("streams", 7)]:
                 prog = program_from(placements, stream)
                 res, classes = run_program(prog)
                 n += 1
